@@ -24,7 +24,7 @@ def make_case(idx):
         # searches as operator motions: character-wise up to the match, line-wise when a line offset follows the closing delimiter;
         # an offset belongs to the search it was typed with, not to later ones
         lines = [' '.join(R.choice(['foo', 'bar', 'ab', 'x', 'World', 'a1', 'o']) for _ in range(R.randint(1, 5))) for _ in range(R.randint(3, 7))]
-        w = lambda: R.choice(['a', 'o', 'b', 'ab', 'foo', 'x', 'ar', 'Wo'])
+        w = lambda: R.choice(['a', 'o', 'b', 'ab', 'foo', 'x', 'ar', 'Wo', '$', '$', '^'])
         srch = lambda: R.choice(['/%s\n', '/%s\n', '?%s\n', '/%s/+1\n', '/%s/0\n', '?%s?-1\n', '/%s/1\n']) % w()
         prog = ['%dG' % R.randint(1, len(lines)), R.choice(['', '0', 'w', '$'])]
         for _ in range(R.randint(2, 5)):
@@ -79,17 +79,18 @@ def run_case(args):
     vi, idx, W = args
     case = make_case(idx)
     keys = case['keys'] + TAIL
-    M = mv.Vi(case['lines'], W, rows=23, shell=SHELL)
+    noai = idx % 6 == 0          # autoindent off: no indent is carried over AND no blanks are stripped
+    M = mv.Vi(case['lines'], W, rows=23, shell=SHELL, ai=not noai)
     try:
         M.run(keys[:-len(':w! out\n')])
     except mv.Unknown as e:
         return ('cut', str(e), None, False)
     except (IndexError, ValueError, TypeError) as e:
         return ('model-error', 'model raised %r on keys %r lines %r' % (e, case['keys'], case['lines']), {'index': idx, 'lines': case['lines'], 'keys': case['keys']}, False)
-    r, d = common.run_vi(vi, keys.encode('utf-8'), files={'f1': gen.buf_bytes(case['lines'])}, timeout=60)
+    r, d = common.run_vi(vi, ((':se noai\n' if noai else '') + keys).encode('utf-8'), files={'f1': gen.buf_bytes(case['lines'])}, timeout=60)
     out = common.readf(d, 'out')
     common.rmcase(d)
-    wit = {'index': idx, 'lines': case['lines'], 'keys': case['keys']}
+    wit = {'index': idx, 'lines': case['lines'], 'keys': (':se noai\n' if noai else '') + case['keys']}
     rep = common.san_report(r)
     if rep:
         return (rep, 'sanitizer/crash: keys %r: %s' % (case['keys'], r.err[-400:].decode('latin-1')), wit, False)
